@@ -696,6 +696,8 @@ func (tree *Tree) returnNode(node *Node) {
 
 func (tree *Tree) Close() error {
 	tree.writerCancel()
+	// the writer loops own the two write connections until they have ended
+	tree.sqlWriter.done.Wait()
 	return tree.sql.Close()
 }
 
